@@ -5,7 +5,8 @@
    a position of the bin and the read has a base aligned at x; i.e. the sum over
    the positions x of the bin of the per-base depth at x.  Nothing here uses
    interval arithmetic: positions are enumerated one by one. *)
-From CNV Require Import Base.Prelude Base.Str Model.Coverage.
+From Coq Require Import Sorting.Sorted.
+From CNV Require Import Base.Prelude Base.Str Model.Chromsort Model.Coverage.
 
 Definition in_block (x : Z) (b : block) : bool := (fst b <=? x) && (x <? snd b).
 
@@ -70,3 +71,45 @@ Definition filtered_out (cut : Z) (r : read) : Prop :=
 (* no counted read of the bin's contig has a (covered) base inside the bin *)
 Definition no_base_in_bin (cov : read -> Z -> bool) (cut : Z) (c : string) (lo hi : Z) (reads : list read) : Prop :=
   forall rd x, In rd reads -> r_contig rd = c -> is_counted cut rd -> lo <= x < hi -> cov rd x = false.
+
+(* ---- text layer: well-formed bedcov lines of a k-column BED ------------------ *)
+
+(* a field holds no tab (9), line feed (10) or carriage return (13) *)
+Definition plain_field (s : string) : Prop :=
+  forallb (fun c => negb (Ascii.eqb c "009"%char || Ascii.eqb c "010"%char || Ascii.eqb c "013"%char))
+          (chars s) = true.
+
+(* a field does not begin with a double quote (34) *)
+Definition unquoted_field (s : string) : Prop :=
+  match chars s with c :: _ => Ascii.eqb c """"%char = false | [] => True end.
+
+(* quoting = 3 is csv.QUOTE_NONE: then quotes are ordinary characters *)
+Definition wf_field (quoting : Z) (s : string) : Prop :=
+  plain_field s /\ (quoting = 3 \/ unquoted_field s).
+
+(* a line of a k-column BED: chromosome, start, end and k - 3 further fields *)
+Definition wf_bedline (quoting : Z) (ncols : nat) (b : bedline) : Prop :=
+  let '(c, _, _, rest) := b in (3 + length rest)%nat = ncols /\ Forall (wf_field quoting) (c :: rest).
+
+(* the same without any condition on quote characters *)
+Definition plain_bedline (ncols : nat) (b : bedline) : Prop :=
+  let '(c, _, _, rest) := b in (3 + length rest)%nat = ncols /\ Forall plain_field (c :: rest).
+
+(* what the parsed record of a bin and its base count has to be: the bin's chromosome,
+   start, end, its name (4th column) if there is one, and the count *)
+Definition parsed_of (bn : bedline * Z) : parsed :=
+  let '((c, lo, hi, rest), n) := bn in (c, lo, hi, hd_opt rest, n).
+
+(* ---- row order ---------------------------------------------------------------- *)
+
+(* rows ordered by (chromosome sort key, start, end) *)
+Definition region_sorted (l : list bedline) : Prop :=
+  StronglySorted (fun a b => region_leb bed_region a b = true) l.
+
+(* distinct chromosome names of the file have distinct sort keys (no "chr1" next to "1") *)
+Definition keys_separate_names (l : list bedline) : Prop :=
+  forall a b, In a l -> In b l -> chrom_key (bed_chrom a) = chrom_key (bed_chrom b) -> bed_chrom a = bed_chrom b.
+
+(* the rows of one chromosome, in table order *)
+Definition rows_of_chrom (c : string) (l : list bedline) : list bedline :=
+  filter (fun b => String.eqb c (bed_chrom b)) l.
